@@ -161,6 +161,7 @@ def run_driver(work, binp, defs_path, scenarios, env=None, maxstack=0, step_time
     skip = 0
     records = []
     restarts = 0
+    attributed = 0
     e = dict(os.environ)
     e["GORACE"] = "halt_on_error=1 exitcode=66"
     if env:
@@ -199,8 +200,13 @@ def run_driver(work, binp, defs_path, scenarios, env=None, maxstack=0, step_time
         if p.returncode == 4:
             raise MachineryError("driver failed: " + p.stderr.decode(errors="replace")[-2000:])
         restarts += 1
-        if restarts > 200:
-            raise MachineryError("driver keeps dying")
+        if restarts > 60:
+            # the child keeps dying.  Deaths inside a step have been recorded as observations of that step and are
+            # judged like any other outcome; the rest of the batch is not run.  If no death could be attributed to a
+            # step there is nothing to judge: a machinery failure.
+            if attributed == 0:
+                raise MachineryError("driver keeps dying (no death inside a step)")
+            break
         if pending is None and not lines:
             # the process died before it executed anything (package initialisation): that is an observation
             # about the first step of the batch under this environment; nothing else of the batch can run
@@ -229,6 +235,7 @@ def run_driver(work, binp, defs_path, scenarios, env=None, maxstack=0, step_time
                "obs": {"out": outcome, "rc": p.returncode,
                        "stderr": p.stderr.decode(errors="replace")[:600]}}
         records.append(rec)
+        attributed += 1
         skip = si + 1
     return records
 
